@@ -198,9 +198,10 @@ func (s *server) onAccept(conn Conn) {
 	vp(vpSrvStore, unsafe.Pointer(s), int64(fd), 1)
 	s.connections.Store(fd, nconn)
 	atomic.AddInt32(&s.accepting, -1) // tracked from here on
-	// the connection may have been closed (its events are handled by another poller) before the
-	// untrack callback above was registered or before it was stored: it must not stay tracked for ever
-	if !nconn.IsActive() {
+	// the connection may have been closed (its events are handled by another poller) and its close callbacks
+	// may have been started before the untrack callback above was registered: it must not stay tracked for
+	// ever. A connection that is only marked closed runs the callback later and stays tracked until then.
+	if atomic.LoadInt32(&nconn.closeCallbackRun) == 1 {
 		s.connections.Delete(fd)
 	}
 
